@@ -30,6 +30,9 @@ pub struct Outcome {
     pub event_writes: Vec<(u64, u64, u64, String)>,
     #[serde(skip)]
     pub bound_is_lock: Vec<bool>,
+    /// per boundary: "lock:<site>" or "write:<site>"
+    #[serde(skip)]
+    pub bound_names: Vec<String>,
     #[serde(skip)]
     pub snapshot: Option<String>,
     #[serde(skip)]
@@ -47,6 +50,7 @@ static HOOK_INSTALLED: AtomicBool = AtomicBool::new(false);
 thread_local! {
     /// per boundary (write or lock intent) of this run: is it a lock intent?
     static BOUND_IS_LOCK: std::cell::RefCell<Vec<bool>> = std::cell::RefCell::new(Vec::new());
+    static BOUND_NAMES: std::cell::RefCell<Vec<String>> = std::cell::RefCell::new(Vec::new());
     static WRITE_SITES: std::cell::RefCell<Vec<&'static str>> = std::cell::RefCell::new(Vec::new());
 }
 
@@ -322,6 +326,13 @@ fn install_write_hook() {
         if matches!(p, crate::verif_hooks::Point::BeforeWrite(_) | crate::verif_hooks::Point::LockIntent(_)) {
             let b = BOUNDS.fetch_add(1, Ordering::SeqCst) + 1;
             let _ = BOUND_IS_LOCK.try_with(|v| v.borrow_mut().push(matches!(p, crate::verif_hooks::Point::LockIntent(_))));
+            let _ = BOUND_NAMES.try_with(|v| {
+                v.borrow_mut().push(match p {
+                    crate::verif_hooks::Point::LockIntent(n) => format!("lock:{}", n),
+                    crate::verif_hooks::Point::BeforeWrite(n) => format!("write:{}", n),
+                    _ => String::new(),
+                })
+            });
             // the second thread of a three-thread case parks before its n-th own boundary
             let start_third = THIRD_COUNTDOWN
                 .try_with(|c| {
@@ -524,7 +535,26 @@ pub fn execute_pair(plan: &Plan, verbose: bool) -> Outcome {
         .filter(|(k, _, _)| base.bound_is_lock.get(*k as usize - 1).cloned().unwrap_or(false) == want_lock)
         .cloned()
         .collect();
-    let pool = if pool.is_empty() { ks.clone() } else { pool };
+    let mut pool = if pool.is_empty() { ks.clone() } else { pool };
+    if slot % 2 == 1 {
+        // every other slot: stratified by site - the sites that occur least often in this history
+        // come first (a fork rollback's lock is taken once, the filter timer's on every tick)
+        let mut count: BTreeMap<String, u64> = BTreeMap::new();
+        for (k, _, _) in ks.iter() {
+            *count.entry(base.bound_names.get(*k as usize - 1).cloned().unwrap_or_default()).or_insert(0) += 1;
+        }
+        let mut names: Vec<(u64, String)> = count.into_iter().map(|(n, c)| (c, n)).collect();
+        names.sort();
+        let name = names[((slot / 2) % names.len() as u64) as usize].1.clone();
+        let by_site: Vec<(u64, u64, String)> = ks
+            .iter()
+            .filter(|(k, _, _)| base.bound_names.get(*k as usize - 1).map(|n| *n == name).unwrap_or(false))
+            .cloned()
+            .collect();
+        if !by_site.is_empty() {
+            pool = by_site;
+        }
+    }
     let (k, e, kind) = pool[((slot.wrapping_mul(7919) + 13) % pool.len() as u64) as usize].clone();
     if let Some(op2) = flag_u64(plan, "pair_op2=") {
         return execute_triple(plan, verbose, base, (k, e, kind), op, op2 % 13, slot);
@@ -765,6 +795,7 @@ pub fn execute_one(plan: &Plan, verbose: bool) -> Outcome {
         WRITES.store(0, Ordering::SeqCst);
         BOUNDS.store(0, Ordering::SeqCst);
         BOUND_IS_LOCK.with(|v| v.borrow_mut().clear());
+        BOUND_NAMES.with(|v| v.borrow_mut().clear());
         WRITE_SITES.with(|w| w.borrow_mut().clear());
         let crash_at = plan
             .flags
@@ -799,6 +830,7 @@ pub fn execute_one(plan: &Plan, verbose: bool) -> Outcome {
             write_sites: sites.iter().map(|s| s.to_string()).collect(),
             event_writes: std::mem::take(&mut sim.event_writes),
             bound_is_lock: BOUND_IS_LOCK.with(|v| v.borrow().clone()),
+            bound_names: BOUND_NAMES.with(|v| v.borrow().clone()),
             snapshot: sim.snapshot.take(),
             pair_answer: sim.pair_answer.take(),
         };
